@@ -1153,8 +1153,8 @@ fn main() {
     if let Err(e) = selftest() {
         ctx.inconclusive(format!("key table self test failed: {}", e));
     }
-    let n_value = ctx.pick(100_000, 6_000_000);
-    let n_map = ctx.pick(100_000, 6_000_000);
+    let n_value = ctx.pick(150_000, 8_000_000);
+    let n_map = ctx.pick(150_000, 8_000_000);
     let max_ops = ctx.pick(70, 160);
     ctx.prop("value-session", n_value, move || arb_case(Kind::Value, max_ops), check);
     ctx.prop("map-session", n_map, move || arb_case(Kind::Map, max_ops), check);
